@@ -301,12 +301,10 @@ pub(crate) fn stub_set_len(_f: &File, len: u64) -> io::Result<()> {
     unsafe {
         assert!(len <= DISK_MAX as u64, "[env] set_len past modelled disk");
         let new = len as usize;
-        let mut i = new;
-        while i < DISK_LEN {
-            DISK[i] = 0;
-            i += 1;
+        // bytes cut off by a shrink (and bytes exposed by a grow) read as zero; memset, not a loop
+        if new < DISK_LEN {
+            core::ptr::write_bytes((&raw mut DISK as *mut u8).add(new), 0u8, DISK_LEN - new);
         }
-        // growing: bytes are already zero beyond DISK_LEN by construction
         DISK_LEN = new;
         WRITES += 1;
     }
@@ -644,4 +642,25 @@ pub(crate) fn placeholder<T>() -> T {
     assert!(core::mem::size_of::<T>() <= 1024 && core::mem::align_of::<T>() <= 16, "[env] placeholder too small");
     let b = Ones([1u8; 1024]);
     unsafe { core::ptr::read(b.0.as_ptr() as *const T) }
+}
+
+/// Frame::clone replaced by a copy of the scalar fields (harness frames carry empty strings,
+/// vectors and maps; the real clone walks all of them with bounds CBMC cannot see concretely).
+pub(crate) static mut LAST_CLONED_FRAME: u64 = u64::MAX;
+pub(crate) fn stub_frame_clone(f: &crate::types::Frame) -> crate::types::Frame {
+    unsafe { LAST_CLONED_FRAME = f.id; }
+    let mut c = mk_frame(f.id, f.timestamp, f.status);
+    c.payload_offset = f.payload_offset;
+    c.payload_length = f.payload_length;
+    c.checksum = f.checksum;
+    c.canonical_encoding = f.canonical_encoding;
+    c.canonical_length = f.canonical_length;
+    c.role = f.role;
+    c.parent_id = f.parent_id;
+    c.chunk_index = f.chunk_index;
+    c.chunk_count = f.chunk_count;
+    c.supersedes = f.supersedes;
+    c.superseded_by = f.superseded_by;
+    c.enrichment_state = f.enrichment_state;
+    c
 }
